@@ -23,6 +23,8 @@ STR_FULL = ["", "1", "1.0", "true", "false", "null", "no", "on", "~", " ", " a "
             "nan", "inf", ".inf", "1e5", "0x10", "010", "1_000", "+1", "-", "?", ": ", "a: ", " #x", "'", "\"", "\\", "\\n", "%",
             "@a", "`a`", "a\tb", "  two", "two  ", "<![CDATA[x]]>", "<!--c-->", "&amp;", "=", "y", "N", "2001-01-01", "1:30",
             " ", "a" * 200, "|", ">", "﻿x", "x﻿"]
+# text that looks like the surrounding document syntax (runs of blanks after commas, bracketed lists, braces)
+STR_FULL += ["Doe,  John", "[ 1,   2 ]", "a,\n   b", "{ \"k\":   1 }", "x:   y", "[\n  1\n]", "1,2", "],  ["]
 # empty and white-space-only lines inside a value
 STR_FULL += ["a\n\nb", "x\n \ny", "\n\n", "l1\n\t\nl3", "p\n\n\nq  r"]
 # what os.fsdecode / sys.argv give for undecodable bytes: a lone surrogate (no UTF-8 encoding, still a str)
